@@ -1257,6 +1257,16 @@ func (e *Exec) builtin(name string, args []Value) Value {
 	case "append":
 		s := args[0].(SliceV)
 		t, ok := args[1].(SliceV)
+		if sv, isStr := args[1].(StrV); isStr {
+			if sv.Sym != nil {
+				panic(unsupported{"append of a symbolic string"})
+			}
+			arr := &ArrayV{E: make([]Value, len(sv.C))}
+			for i := range arr.E {
+				arr.E[i] = IntV{T: e.P.BV(8, uint64(sv.C[i]))}
+			}
+			t, ok = SliceV{Arr: e.newObj(arr), Len: len(sv.C), Cap: len(sv.C)}, true
+		}
 		if !ok {
 			break
 		}
